@@ -90,24 +90,24 @@ CHECKS = {
 ADDED = {
  "C01": "Added: the empty forest and single nodes of every kind x BOM; every printable ASCII character (and a 2-byte rune) single and doubled at every position of values, tags and pointers; node-identity oracle (every position its own object).",
  "C02": "Added: single paths to depth 40 with a line at every level; every specialised line twice in one record with different substructure; lower/mixed-case tags and percent values among the 42 line deviations; node-identity oracle.",
- "C03": "Added: level numbers at every machine-integer boundary (2^8..2^64, zero padded); a case that does not return is reported by the runner's watchdog (hang).",
- "C04": "Added: every upper/lower-case pattern of every documented word in 2-5 sentence frames.",
+ "C03": "Added: the file entry point NewDocumentFromGEDCOMFile on every sequence of <=2 adversarial lines; ten thousand distinct non-standard tags in one process; level numbers at every machine-integer boundary (2^8..2^64, zero padded); a case that does not return is reported by the runner's watchdog (hang).",
+ "C04": "Added: runs of 9 and 17 spaces; every upper/lower-case pattern of every documented word in 2-5 sentence frames.",
  "C05": "Added: ranges built by the public constructor from plain Date literals and with swapped range-end flags.",
- "C06": "Added: February 1900 at every granularity (thorough: ten 64-day windows).",
+ "C06": "Added: parsed operands with Bef./Aft./Abt. words (the relation is one of intervals); February 1900 at every granularity (thorough: ten 64-day windows).",
  "C07": "Added: every multiset of 2-3 siblings from a pool of 50 subtrees built around each specialised Equals rule (gen.EqualityClassPool) x every re-ordering at sibling level and one level down, with both arguments compared before/after every DeepEqual; nodes built through the API with padded values through every copy path.",
- "C08": "Added: the equality-class pool (re-orderings and pairs, with operation orders).",
+ "C08": "Added: trees built through the API over one shared child array with spare capacity; the equality-class pool (re-orderings and pairs, with operation orders).",
  "C09": "Added: the equality-class pool (merges and self-merges); merge functions that decline with a typed nil.",
- "C10": "Now 7 base graphs (incl. exact dates throughout, unique identifiers) with HEAD/TRLR, 16 edits (incl. a family event with spouse ages), a record carrying two people's identifiers; the query function used a second time after an in-place edit must account for the added individual.",
- "C11": "Now 16 scenarios (incl. lists that are only a part of their documents). Added: the real `gedcom diff` binary on 3 document pairs x 4x3x3 threshold flags x jobs {1,2}, pairs parsed from the report's index table and compared with the library call under the options the flags document.",
- "C12": "Added: 105-individual universe (two and three names in both orders); an operand compared with itself must score what it scores against an equal separately decoded copy; weights that differ from each other in the weighted surrounding similarity.",
- "C13": "Now 5 initial documents (one with a living spouse), 46 operation instances (incl. SetNodes on a childless node, a second record with an existing pointer, publishing in all three visibilities, filter queries); live views are read before anything else is decoded; deep equality with the freshly decoded twin is one of the views.",
- "C14": "Now 33 faults (incl. empty DATE, a husband without dates, a cycle that is the only child, a second family with a dangling partner); files that need decoder options x the diff command's decoder flags.",
- "C15": "Added: variables in every syntactic position (function arguments, conditions incl. both sides of a comparison, object values) in pipelines of <=2 steps with one or two definitions; a document whose lists consist of nil elements only; hangs are reported by the watchdog.",
- "C16": "Added: comparison table (46 constants incl. signed, leading dot/zero/plus, exponent, padded x 36 operand values x 6 operators); variables evaluated per item (Only conditions, object fields) and one parsed engine evaluated on every ordered pair/triple of documents.",
- "C17": "Now 16 roles (incl. living namesake sorting first, wife of a dead man with a dead child), marriages with dates; completeness differential: what a dead person's page and the individual lists say with show they also say with hide/placeholder.",
+ "C10": "Now 7 base graphs (incl. exact dates throughout, unique identifiers) with HEAD/TRLR, 16 edits (incl. a family event with spouse ages), a record carrying two people's identifiers; the query function used a second time (after an in-place edit, and the same compiled query on other document objects) must account for the added individual; plain leaf facts must be in the merged individual as written.",
+ "C11": "Now 18 scenarios (incl. lists that are only a part of their documents, identifier and pointer pointing at different partners, two candidates with scores in one percent bucket); in-place appends are monitored as writes. Added: the real `gedcom diff` binary on 3 document pairs x 4x5x5 threshold flags (incl. 0 and 1) x jobs {1,2}, pairs parsed from the report's index table and compared with the library call under the options the flags document.",
+ "C12": "Added: strings of 31..130 bytes; objects compared again with other options must score what fresh objects score; 105-individual universe (two and three names in both orders); an operand compared with itself must score what it scores against an equal separately decoded copy; weights that differ from each other in the weighted surrounding similarity.",
+ "C13": "Now 5 initial documents (one with a living spouse), 47 operation instances (incl. a record without a pointer) (incl. SetNodes on a childless node, a second record with an existing pointer, publishing in all three visibilities, filter queries); live views are read before anything else is decoded; deep equality with the freshly decoded twin is one of the views.",
+ "C14": "Now 37 faults (incl. a second name without surname, nameless spouses, a bad date in the header) (incl. empty DATE, a husband without dates, a cycle that is the only child, a second family with a dangling partner); files that need decoder options x the diff command's decoder flags.",
+ "C15": "Added: results with more than 1000 / 2500 entries; a couple without names; variables in every syntactic position (function arguments, conditions incl. both sides of a comparison, object values) in pipelines of <=2 steps with one or two definitions; a document whose lists consist of nil elements only; hangs are reported by the watchdog.",
+ "C16": "Added: programs that mention Document1, constants with backslashes, user-defined tags in tag paths; comparison table (46 constants incl. signed, leading dot/zero/plus, exponent, padded x 36 operand values x 6 operators); variables evaluated per item (Only conditions, object fields) and one parsed engine evaluated on every ordered pair/triple of documents.",
+ "C17": "Now 17 roles (incl. a death record removed through the API between two publishings), the real `gedcom publish` binary on 3 role sets x 7 spellings of -living (incl. none and refused ones) x 7 page-group sets; 16 roles (incl. living namesake sorting first, wife of a dead man with a dead child), marriages with dates; completeness differential: what a dead person's page and the individual lists say with show they also say with hide/placeholder.",
  "C18": "Added: an individual without NAME (pointer tainted); token shapes with a leading special character and with literal entities after the token; map-valued query results.",
- "C19": "Added: hostile places and names (document D5), first/last index letters and same-year events at one place (D6); every document re-published by the real DirectoryFileWriter over a directory that already holds another site.",
- "C20": "Added: unparsable birth dates of children.",
+ "C19": "Added: the real `gedcom publish` binary on 3 documents x 3 visibilities x 8 page-group sets (names and closure of what is on disk); histories with one options value for all publishings; hostile places and names (document D5), first/last index letters and same-year events at one place (D6); every document re-published by the real DirectoryFileWriter over a directory that already holds another site.",
+ "C20": "Added: three mutually close siblings; unparsable birth dates of children.",
 }
 
 NOT_APPLICABLE = []
